@@ -11,8 +11,10 @@
 //! * on threads that are not simulated tasks everything degrades to the real
 //!   blocking behaviour.
 //!
-//! Lock guards, `LockResult`, poisoning, `Arc`, `Condvar`, `mpsc`, `Barrier`
-//! are std's own types, so semantics other than *who runs next* are std's.
+//! `LockResult`, poisoning, `Arc`, the RwLock guards and the channel queues are std's own, so
+//! semantics other than *who runs next* are std's. `Condvar`, `Barrier`, `mpsc` and
+//! `thread::spawn`/`scope` are wrappers whose waiting happens under the scheduler; a thread the
+//! crate under test spawns from a simulated task is itself a simulated task.
 #![no_std]
 #![allow(clippy::new_without_default)]
 
@@ -167,9 +169,22 @@ pub mod time {
     }
 }
 
-/// `std::thread` with `sleep` on the simulated clock and `yield_now` as a scheduling point.
+/// `std::thread`: `sleep` runs on the simulated clock, `yield_now` is a scheduling point, and a
+/// thread started by a simulated task becomes a simulated task itself (scheduled by the seeded
+/// scheduler like any caller; `join` is a "blocked" scheduling point, never a kernel wait while
+/// the baton is held). Threads started by any other thread are ordinary threads.
 pub mod thread {
-    pub use rstd::thread::*;
+    pub use rstd::thread::{
+        available_parallelism, current, panicking, park, park_timeout, AccessError, LocalKey, Result, Thread, ThreadId,
+    };
+
+    use fqcore::__fqsim::{blocked, ctl, TASK_DONE, TASK_ENTER, TASK_EXIT, TASK_SPAWN};
+    use rstd::boxed::Box;
+    use rstd::io;
+    use rstd::panic::{catch_unwind, resume_unwind, AssertUnwindSafe};
+    use rstd::string::String;
+    use rstd::thread as real;
+    use rstd::vec::Vec;
 
     pub fn sleep(d: rstd::time::Duration) {
         let ns = d.as_nanos().min(u64::MAX as u128) as u64;
@@ -184,6 +199,195 @@ pub mod thread {
     pub fn yield_now() {
         fqcore::__fqsim::point("sync:yield_now");
         rstd::thread::yield_now();
+    }
+
+    struct ExitGuard(u64);
+    impl Drop for ExitGuard {
+        fn drop(&mut self) {
+            if self.0 != 0 {
+                ctl(TASK_EXIT, self.0);
+            }
+        }
+    }
+
+    fn wrap<F: FnOnce() -> T, T>(token: u64, f: F) -> impl FnOnce() -> T {
+        move || {
+            if token != 0 {
+                ctl(TASK_ENTER, token);
+            }
+            let _g = ExitGuard(token);
+            f()
+        }
+    }
+
+    fn wait_done(token: u64, site: &'static str) {
+        if token != 0 {
+            while ctl(TASK_DONE, token) == 0 {
+                if !blocked(site) {
+                    break; // not (or no longer) simulated: the real join below waits
+                }
+            }
+        }
+    }
+
+    pub struct JoinHandle<T> {
+        real: real::JoinHandle<T>,
+        token: u64,
+    }
+
+    impl<T> JoinHandle<T> {
+        pub fn join(self) -> Result<T> {
+            wait_done(self.token, "sync:join_blocked");
+            self.real.join()
+        }
+        pub fn thread(&self) -> &Thread {
+            self.real.thread()
+        }
+        pub fn is_finished(&self) -> bool {
+            fqcore::__fqsim::point("sync:is_finished");
+            if self.token != 0 {
+                return ctl(TASK_DONE, self.token) == 1;
+            }
+            self.real.is_finished()
+        }
+    }
+
+    impl<T> rstd::fmt::Debug for JoinHandle<T> {
+        fn fmt(&self, f: &mut rstd::fmt::Formatter<'_>) -> rstd::fmt::Result {
+            f.debug_struct("JoinHandle").finish_non_exhaustive()
+        }
+    }
+
+    pub fn spawn<F, T>(f: F) -> JoinHandle<T>
+    where
+        F: FnOnce() -> T + Send + 'static,
+        T: Send + 'static,
+    {
+        Builder::new().spawn(f).expect("failed to spawn thread")
+    }
+
+    #[derive(Debug)]
+    pub struct Builder(real::Builder);
+
+    impl Builder {
+        pub fn new() -> Builder {
+            Builder(real::Builder::new())
+        }
+        pub fn name(self, name: String) -> Builder {
+            Builder(self.0.name(name))
+        }
+        pub fn stack_size(self, size: usize) -> Builder {
+            Builder(self.0.stack_size(size))
+        }
+        pub fn spawn<F, T>(self, f: F) -> io::Result<JoinHandle<T>>
+        where
+            F: FnOnce() -> T + Send + 'static,
+            T: Send + 'static,
+        {
+            fqcore::__fqsim::point("sync:spawn");
+            let token = ctl(TASK_SPAWN, 0);
+            match self.0.spawn(wrap(token, f)) {
+                Ok(real) => Ok(JoinHandle { real, token }),
+                Err(e) => {
+                    if token != 0 {
+                        ctl(TASK_EXIT, token);
+                    }
+                    Err(e)
+                }
+            }
+        }
+        pub fn spawn_scoped<'scope, 'env, F, T>(self, scope: &'scope Scope<'scope, 'env>, f: F) -> io::Result<ScopedJoinHandle<'scope, T>>
+        where
+            F: FnOnce() -> T + Send + 'scope,
+            T: Send + 'scope,
+        {
+            fqcore::__fqsim::point("sync:spawn");
+            let token = ctl(TASK_SPAWN, 0);
+            if token != 0 {
+                scope.tokens.lock().unwrap_or_else(|e| e.into_inner()).push(token);
+            }
+            match self.0.spawn_scoped(scope.real, wrap(token, f)) {
+                Ok(real) => Ok(ScopedJoinHandle { real, token }),
+                Err(e) => {
+                    if token != 0 {
+                        ctl(TASK_EXIT, token);
+                    }
+                    Err(e)
+                }
+            }
+        }
+    }
+
+    impl Default for Builder {
+        fn default() -> Self {
+            Builder::new()
+        }
+    }
+
+    pub struct Scope<'scope, 'env: 'scope> {
+        real: &'scope real::Scope<'scope, 'env>,
+        tokens: rstd::sync::Mutex<Vec<u64>>,
+    }
+
+    pub struct ScopedJoinHandle<'scope, T> {
+        real: real::ScopedJoinHandle<'scope, T>,
+        token: u64,
+    }
+
+    impl<'scope, T> ScopedJoinHandle<'scope, T> {
+        pub fn join(self) -> Result<T> {
+            wait_done(self.token, "sync:join_blocked");
+            self.real.join()
+        }
+        pub fn thread(&self) -> &Thread {
+            self.real.thread()
+        }
+        pub fn is_finished(&self) -> bool {
+            fqcore::__fqsim::point("sync:is_finished");
+            if self.token != 0 {
+                return ctl(TASK_DONE, self.token) == 1;
+            }
+            self.real.is_finished()
+        }
+    }
+
+    impl<'scope, 'env> Scope<'scope, 'env> {
+        pub fn spawn<F, T>(&'scope self, f: F) -> ScopedJoinHandle<'scope, T>
+        where
+            F: FnOnce() -> T + Send + 'scope,
+            T: Send + 'scope,
+        {
+            Builder::new().spawn_scoped(self, f).expect("failed to spawn thread")
+        }
+    }
+
+    pub fn scope<'env, F, T>(f: F) -> T
+    where
+        F: for<'scope> FnOnce(&'scope Scope<'scope, 'env>) -> T,
+    {
+        real::scope(|rs| {
+            // Leaked on purpose (a few bytes per call, simulation builds only): scoped threads
+            // hold `&Scope` for as long as they run, and although we wait for all of them below,
+            // a thread released by the simulator may outlive that wait.
+            let ours: &Scope<'_, 'env> = Box::leak(Box::new(Scope { real: rs, tokens: rstd::sync::Mutex::new(Vec::new()) }));
+            let out = catch_unwind(AssertUnwindSafe(|| f(ours)));
+            // the implicit join at the end of the scope: wait under the scheduler, not in the kernel
+            loop {
+                let pending: Vec<u64> = ours.tokens.lock().unwrap_or_else(|e| e.into_inner()).clone();
+                match pending.iter().find(|t| ctl(TASK_DONE, **t) == 0) {
+                    None => break,
+                    Some(_) => {
+                        if !blocked("sync:scope_join_blocked") {
+                            break;
+                        }
+                    }
+                }
+            }
+            match out {
+                Ok(v) => v,
+                Err(p) => resume_unwind(p),
+            }
+        })
     }
 }
 
@@ -207,6 +411,35 @@ pub mod sync {
     // ------------------------------------------------------------------ Mutex
     pub struct Mutex<T: ?Sized>(real::Mutex<T>);
 
+    /// std's guard plus a reference to the mutex it locks, which `Condvar::wait` needs in order
+    /// to re-acquire the lock under the scheduler instead of inside a kernel wait.
+    pub struct MutexGuard<'a, T: ?Sized + 'a> {
+        g: real::MutexGuard<'a, T>,
+        m: &'a Mutex<T>,
+    }
+
+    impl<T: ?Sized> Deref for MutexGuard<'_, T> {
+        type Target = T;
+        fn deref(&self) -> &T {
+            &self.g
+        }
+    }
+    impl<T: ?Sized> rstd::ops::DerefMut for MutexGuard<'_, T> {
+        fn deref_mut(&mut self) -> &mut T {
+            &mut self.g
+        }
+    }
+    impl<T: ?Sized + fmt::Debug> fmt::Debug for MutexGuard<'_, T> {
+        fn fmt(&self, f: &mut fmt::Formatter<'_>) -> fmt::Result {
+            fmt::Debug::fmt(&*self.g, f)
+        }
+    }
+    impl<T: ?Sized + fmt::Display> fmt::Display for MutexGuard<'_, T> {
+        fn fmt(&self, f: &mut fmt::Formatter<'_>) -> fmt::Result {
+            fmt::Display::fmt(&*self.g, f)
+        }
+    }
+
     impl<T> Mutex<T> {
         #[inline]
         pub const fn new(t: T) -> Mutex<T> {
@@ -218,23 +451,37 @@ pub mod sync {
     }
 
     impl<T: ?Sized> Mutex<T> {
-        pub fn lock(&self) -> real::LockResult<real::MutexGuard<'_, T>> {
+        fn wrap<'a>(&'a self, r: real::LockResult<real::MutexGuard<'a, T>>) -> real::LockResult<MutexGuard<'a, T>> {
+            match r {
+                Ok(g) => Ok(MutexGuard { g, m: self }),
+                Err(p) => Err(real::PoisonError::new(MutexGuard { g: p.into_inner(), m: self })),
+            }
+        }
+        pub fn lock(&self) -> real::LockResult<MutexGuard<'_, T>> {
             loop {
                 point("sync:mutex_lock");
                 match self.0.try_lock() {
-                    Ok(g) => return Ok(g),
-                    Err(real::TryLockError::Poisoned(p)) => return Err(p),
+                    Ok(g) => return Ok(MutexGuard { g, m: self }),
+                    Err(real::TryLockError::Poisoned(p)) => {
+                        return Err(real::PoisonError::new(MutexGuard { g: p.into_inner(), m: self }))
+                    }
                     Err(real::TryLockError::WouldBlock) => {
                         if !blocked("sync:mutex_blocked") {
-                            return self.0.lock();
+                            return self.wrap(self.0.lock());
                         }
                     }
                 }
             }
         }
-        pub fn try_lock(&self) -> real::TryLockResult<real::MutexGuard<'_, T>> {
+        pub fn try_lock(&self) -> real::TryLockResult<MutexGuard<'_, T>> {
             point("sync:mutex_try_lock");
-            self.0.try_lock()
+            match self.0.try_lock() {
+                Ok(g) => Ok(MutexGuard { g, m: self }),
+                Err(real::TryLockError::Poisoned(p)) => {
+                    Err(real::TryLockError::Poisoned(real::PoisonError::new(MutexGuard { g: p.into_inner(), m: self })))
+                }
+                Err(real::TryLockError::WouldBlock) => Err(real::TryLockError::WouldBlock),
+            }
         }
         pub fn is_poisoned(&self) -> bool {
             self.0.is_poisoned()
@@ -260,6 +507,443 @@ pub mod sync {
     impl<T: ?Sized + fmt::Debug> fmt::Debug for Mutex<T> {
         fn fmt(&self, f: &mut fmt::Formatter<'_>) -> fmt::Result {
             fmt::Debug::fmt(&self.0, f)
+        }
+    }
+
+    // ---------------------------------------------------------------- Condvar
+    static NEXT_TICKET: rstd::sync::atomic::AtomicU64 = rstd::sync::atomic::AtomicU64::new(1);
+
+    /// A condition variable whose waiting happens under the scheduler: a waiting task releases
+    /// the mutex, is "blocked" until a notification removes its ticket (or, legally, wakes up
+    /// spuriously by a seeded choice, or its simulated timeout expires) and then re-acquires the
+    /// mutex. Threads that are not simulated tasks use the real condition variable inside;
+    /// notifications always go to both.
+    pub struct Condvar {
+        real: real::Condvar,
+        tickets: real::Mutex<rstd::vec::Vec<u64>>,
+    }
+
+    #[derive(Debug, PartialEq, Eq, Copy, Clone)]
+    pub struct WaitTimeoutResult(bool);
+
+    impl WaitTimeoutResult {
+        #[must_use]
+        pub fn timed_out(&self) -> bool {
+            self.0
+        }
+    }
+
+    impl Condvar {
+        #[inline]
+        pub const fn new() -> Condvar {
+            Condvar { real: real::Condvar::new(), tickets: real::Mutex::new(rstd::vec::Vec::new()) }
+        }
+
+        fn q(&self) -> real::MutexGuard<'_, rstd::vec::Vec<u64>> {
+            self.tickets.lock().unwrap_or_else(|e| e.into_inner())
+        }
+
+        fn drop_ticket(&self, t: u64) {
+            self.q().retain(|x| *x != t);
+        }
+
+        /// Simulated wait. Returns the re-acquired guard and whether the timeout expired.
+        fn wait_sim<'a, T>(&self, guard: MutexGuard<'a, T>, timeout: Option<rstd::time::Duration>) -> (real::LockResult<MutexGuard<'a, T>>, bool) {
+            use fqcore::__fqsim::{clock, ctl, is_task, TASK_RAND};
+            let m = guard.m;
+            let ticket = NEXT_TICKET.fetch_add(1, Ordering::SeqCst);
+            self.q().push(ticket);
+            let deadline = timeout.map(|d| clock(0).unwrap_or(0).saturating_add(d.as_nanos().min(u64::MAX as u128) as u64));
+            drop(guard);
+            point("sync:condvar_wait");
+            let mut timed_out = false;
+            loop {
+                if !self.q().contains(&ticket) {
+                    break; // notified
+                }
+                if is_task() {
+                    // a spurious wake-up is legal for every condition variable
+                    if ctl(TASK_RAND, 48) == 47 {
+                        self.drop_ticket(ticket);
+                        break;
+                    }
+                    if let Some(dl) = deadline {
+                        if clock(0).map(|n| n >= dl).unwrap_or(true) {
+                            self.drop_ticket(ticket);
+                            timed_out = true;
+                            break;
+                        }
+                    }
+                }
+                if !blocked("sync:condvar_blocked") {
+                    // nobody the scheduler knows can run: wait for a real notification for a moment
+                    let g = m.0.lock().unwrap_or_else(|e| e.into_inner());
+                    if self.q().contains(&ticket) {
+                        let _ = self.real.wait_timeout(g, rstd::time::Duration::from_millis(2));
+                    }
+                    if !is_task() && timeout.is_some() {
+                        // released from the simulation while waiting with a timeout: report a timeout
+                        if self.q().contains(&ticket) {
+                            self.drop_ticket(ticket);
+                            timed_out = true;
+                        }
+                        break;
+                    }
+                }
+            }
+            (m.lock(), timed_out)
+        }
+
+        pub fn wait<'a, T>(&self, guard: MutexGuard<'a, T>) -> real::LockResult<MutexGuard<'a, T>> {
+            if !fqcore::__fqsim::is_task() {
+                let MutexGuard { g, m } = guard;
+                return m.wrap(self.real.wait(g));
+            }
+            self.wait_sim(guard, None).0
+        }
+
+        pub fn wait_while<'a, T, F>(&self, mut guard: MutexGuard<'a, T>, mut condition: F) -> real::LockResult<MutexGuard<'a, T>>
+        where
+            F: FnMut(&mut T) -> bool,
+        {
+            while condition(&mut *guard) {
+                guard = self.wait(guard)?;
+            }
+            Ok(guard)
+        }
+
+        pub fn wait_timeout<'a, T>(&self, guard: MutexGuard<'a, T>, dur: rstd::time::Duration) -> real::LockResult<(MutexGuard<'a, T>, WaitTimeoutResult)> {
+            if !fqcore::__fqsim::is_task() {
+                let MutexGuard { g, m } = guard;
+                return match self.real.wait_timeout(g, dur) {
+                    Ok((g, r)) => Ok((MutexGuard { g, m }, WaitTimeoutResult(r.timed_out()))),
+                    Err(p) => {
+                        let (g, r) = p.into_inner();
+                        Err(real::PoisonError::new((MutexGuard { g, m }, WaitTimeoutResult(r.timed_out()))))
+                    }
+                };
+            }
+            let (r, t) = self.wait_sim(guard, Some(dur));
+            match r {
+                Ok(g) => Ok((g, WaitTimeoutResult(t))),
+                Err(p) => Err(real::PoisonError::new((p.into_inner(), WaitTimeoutResult(t)))),
+            }
+        }
+
+        pub fn wait_timeout_while<'a, T, F>(
+            &self,
+            mut guard: MutexGuard<'a, T>,
+            dur: rstd::time::Duration,
+            mut condition: F,
+        ) -> real::LockResult<(MutexGuard<'a, T>, WaitTimeoutResult)>
+        where
+            F: FnMut(&mut T) -> bool,
+        {
+            let start = crate::time::Instant::now();
+            loop {
+                if !condition(&mut *guard) {
+                    return Ok((guard, WaitTimeoutResult(false)));
+                }
+                let left = match dur.checked_sub(start.elapsed()) {
+                    Some(l) => l,
+                    None => return Ok((guard, WaitTimeoutResult(true))),
+                };
+                guard = match self.wait_timeout(guard, left) {
+                    Ok((g, _)) => g,
+                    Err(p) => {
+                        let (g, r) = p.into_inner();
+                        return Err(real::PoisonError::new((g, r)));
+                    }
+                };
+            }
+        }
+
+        pub fn notify_one(&self) {
+            point("sync:condvar_notify");
+            {
+                let mut q = self.q();
+                if !q.is_empty() {
+                    // which waiter wakes is unspecified: a seeded choice
+                    let i = fqcore::__fqsim::ctl(fqcore::__fqsim::TASK_RAND, q.len() as u64) as usize;
+                    let i = i.min(q.len() - 1);
+                    q.remove(i);
+                }
+            }
+            self.real.notify_one();
+        }
+
+        pub fn notify_all(&self) {
+            point("sync:condvar_notify");
+            self.q().clear();
+            self.real.notify_all();
+        }
+    }
+
+    impl Default for Condvar {
+        fn default() -> Self {
+            Condvar::new()
+        }
+    }
+    impl fmt::Debug for Condvar {
+        fn fmt(&self, f: &mut fmt::Formatter<'_>) -> fmt::Result {
+            f.debug_struct("Condvar").finish_non_exhaustive()
+        }
+    }
+
+    // ---------------------------------------------------------------- Barrier
+    pub struct Barrier {
+        n: usize,
+        state: real::Mutex<(usize, usize)>,
+    }
+
+    pub struct BarrierWaitResult(bool);
+
+    impl BarrierWaitResult {
+        #[must_use]
+        pub fn is_leader(&self) -> bool {
+            self.0
+        }
+    }
+    impl fmt::Debug for BarrierWaitResult {
+        fn fmt(&self, f: &mut fmt::Formatter<'_>) -> fmt::Result {
+            f.debug_struct("BarrierWaitResult").field("is_leader", &self.0).finish()
+        }
+    }
+
+    impl Barrier {
+        #[inline]
+        pub const fn new(n: usize) -> Barrier {
+            Barrier { n, state: real::Mutex::new((0, 0)) }
+        }
+        pub fn wait(&self) -> BarrierWaitResult {
+            point("sync:barrier_wait");
+            let my_gen;
+            {
+                let mut st = self.state.lock().unwrap_or_else(|e| e.into_inner());
+                st.0 += 1;
+                if st.0 >= self.n {
+                    st.0 = 0;
+                    st.1 = st.1.wrapping_add(1);
+                    return BarrierWaitResult(true);
+                }
+                my_gen = st.1;
+            }
+            loop {
+                if self.state.lock().unwrap_or_else(|e| e.into_inner()).1 != my_gen {
+                    return BarrierWaitResult(false);
+                }
+                if !blocked("sync:barrier_blocked") {
+                    rstd::thread::sleep(rstd::time::Duration::from_micros(200));
+                }
+            }
+        }
+    }
+    impl fmt::Debug for Barrier {
+        fn fmt(&self, f: &mut fmt::Formatter<'_>) -> fmt::Result {
+            f.debug_struct("Barrier").finish_non_exhaustive()
+        }
+    }
+
+    // ------------------------------------------------------------------- mpsc
+    /// Channels whose blocking operations (`recv`, `recv_timeout`, `send` on a full bounded
+    /// channel) are "blocked" scheduling points with timeouts on the simulated clock. The queues
+    /// are std's own. Rendezvous channels (`sync_channel(0)`) need a receiver parked in the kernel
+    /// to complete a send, which polling cannot provide: they keep std's blocking behaviour.
+    pub mod mpsc {
+        pub use rstd::sync::mpsc::{RecvError, RecvTimeoutError, SendError, TryRecvError, TrySendError};
+
+        use fqcore::__fqsim::{blocked, clock, is_task, point};
+        use rstd::fmt;
+        use rstd::sync::mpsc as real;
+        use rstd::time::Duration;
+
+        pub struct Sender<T>(real::Sender<T>);
+        pub struct SyncSender<T> {
+            real: real::SyncSender<T>,
+            rendezvous: bool,
+        }
+        pub struct Receiver<T> {
+            real: real::Receiver<T>,
+            rendezvous: bool,
+        }
+
+        pub fn channel<T>() -> (Sender<T>, Receiver<T>) {
+            let (s, r) = real::channel();
+            (Sender(s), Receiver { real: r, rendezvous: false })
+        }
+
+        pub fn sync_channel<T>(bound: usize) -> (SyncSender<T>, Receiver<T>) {
+            let (s, r) = real::sync_channel(bound);
+            (SyncSender { real: s, rendezvous: bound == 0 }, Receiver { real: r, rendezvous: bound == 0 })
+        }
+
+        impl<T> Sender<T> {
+            pub fn send(&self, t: T) -> Result<(), SendError<T>> {
+                point("sync:mpsc_send");
+                self.0.send(t)
+            }
+        }
+        impl<T> Clone for Sender<T> {
+            fn clone(&self) -> Self {
+                Sender(self.0.clone())
+            }
+        }
+        impl<T> fmt::Debug for Sender<T> {
+            fn fmt(&self, f: &mut fmt::Formatter<'_>) -> fmt::Result {
+                f.debug_struct("Sender").finish_non_exhaustive()
+            }
+        }
+
+        impl<T> SyncSender<T> {
+            pub fn send(&self, t: T) -> Result<(), SendError<T>> {
+                if self.rendezvous || !is_task() {
+                    point("sync:mpsc_send");
+                    return self.real.send(t);
+                }
+                let mut t = t;
+                loop {
+                    point("sync:mpsc_send");
+                    match self.real.try_send(t) {
+                        Ok(()) => return Ok(()),
+                        Err(TrySendError::Disconnected(v)) => return Err(SendError(v)),
+                        Err(TrySendError::Full(v)) => {
+                            t = v;
+                            if !blocked("sync:mpsc_send_blocked") {
+                                return self.real.send(t);
+                            }
+                        }
+                    }
+                }
+            }
+            pub fn try_send(&self, t: T) -> Result<(), TrySendError<T>> {
+                point("sync:mpsc_send");
+                self.real.try_send(t)
+            }
+        }
+        impl<T> Clone for SyncSender<T> {
+            fn clone(&self) -> Self {
+                SyncSender { real: self.real.clone(), rendezvous: self.rendezvous }
+            }
+        }
+        impl<T> fmt::Debug for SyncSender<T> {
+            fn fmt(&self, f: &mut fmt::Formatter<'_>) -> fmt::Result {
+                f.debug_struct("SyncSender").finish_non_exhaustive()
+            }
+        }
+
+        impl<T> Receiver<T> {
+            pub fn try_recv(&self) -> Result<T, TryRecvError> {
+                point("sync:mpsc_recv");
+                self.real.try_recv()
+            }
+            pub fn recv(&self) -> Result<T, RecvError> {
+                if self.rendezvous || !is_task() {
+                    point("sync:mpsc_recv");
+                    return self.real.recv();
+                }
+                loop {
+                    point("sync:mpsc_recv");
+                    match self.real.try_recv() {
+                        Ok(v) => return Ok(v),
+                        Err(TryRecvError::Disconnected) => return Err(RecvError),
+                        Err(TryRecvError::Empty) => {
+                            if !blocked("sync:mpsc_recv_blocked") {
+                                if !is_task() {
+                                    return self.real.recv();
+                                }
+                                // nobody else is runnable: a free-running thread may still send
+                                match self.real.recv_timeout(Duration::from_millis(2)) {
+                                    Ok(v) => return Ok(v),
+                                    Err(RecvTimeoutError::Disconnected) => return Err(RecvError),
+                                    Err(RecvTimeoutError::Timeout) => {}
+                                }
+                            }
+                        }
+                    }
+                }
+            }
+            pub fn recv_timeout(&self, timeout: Duration) -> Result<T, RecvTimeoutError> {
+                if self.rendezvous || !is_task() {
+                    point("sync:mpsc_recv");
+                    return self.real.recv_timeout(timeout);
+                }
+                let deadline = clock(0).unwrap_or(0).saturating_add(timeout.as_nanos().min(u64::MAX as u128) as u64);
+                loop {
+                    point("sync:mpsc_recv");
+                    match self.real.try_recv() {
+                        Ok(v) => return Ok(v),
+                        Err(TryRecvError::Disconnected) => return Err(RecvTimeoutError::Disconnected),
+                        Err(TryRecvError::Empty) => {}
+                    }
+                    // the simulated clock moves at every reading: the deadline is reached after a
+                    // seeded number of polls, whether or not the other side has been scheduled
+                    match clock(0) {
+                        Some(now) if now < deadline => {}
+                        Some(_) => return Err(RecvTimeoutError::Timeout),
+                        None => return self.real.recv_timeout(Duration::from_millis(1)),
+                    }
+                    if !blocked("sync:mpsc_recv_blocked") {
+                        match self.real.recv_timeout(Duration::from_millis(1)) {
+                            Ok(v) => return Ok(v),
+                            Err(RecvTimeoutError::Disconnected) => return Err(RecvTimeoutError::Disconnected),
+                            Err(RecvTimeoutError::Timeout) => {}
+                        }
+                    }
+                }
+            }
+            pub fn iter(&self) -> Iter<'_, T> {
+                Iter { rx: self }
+            }
+            pub fn try_iter(&self) -> TryIter<'_, T> {
+                TryIter { rx: self }
+            }
+        }
+        impl<T> fmt::Debug for Receiver<T> {
+            fn fmt(&self, f: &mut fmt::Formatter<'_>) -> fmt::Result {
+                f.debug_struct("Receiver").finish_non_exhaustive()
+            }
+        }
+
+        pub struct Iter<'a, T: 'a> {
+            rx: &'a Receiver<T>,
+        }
+        impl<T> Iterator for Iter<'_, T> {
+            type Item = T;
+            fn next(&mut self) -> Option<T> {
+                self.rx.recv().ok()
+            }
+        }
+        pub struct TryIter<'a, T: 'a> {
+            rx: &'a Receiver<T>,
+        }
+        impl<T> Iterator for TryIter<'_, T> {
+            type Item = T;
+            fn next(&mut self) -> Option<T> {
+                self.rx.try_recv().ok()
+            }
+        }
+        pub struct IntoIter<T> {
+            rx: Receiver<T>,
+        }
+        impl<T> Iterator for IntoIter<T> {
+            type Item = T;
+            fn next(&mut self) -> Option<T> {
+                self.rx.recv().ok()
+            }
+        }
+        impl<T> IntoIterator for Receiver<T> {
+            type Item = T;
+            type IntoIter = IntoIter<T>;
+            fn into_iter(self) -> IntoIter<T> {
+                IntoIter { rx: self }
+            }
+        }
+        impl<'a, T> IntoIterator for &'a Receiver<T> {
+            type Item = T;
+            type IntoIter = Iter<'a, T>;
+            fn into_iter(self) -> Iter<'a, T> {
+                self.iter()
+            }
         }
     }
 
